@@ -14,6 +14,7 @@ import json
 from fractions import Fraction
 
 from harness import core, msgs
+from harness import objs
 from harness import coder_io as C
 from harness import coderprops as P
 
@@ -304,9 +305,9 @@ def impl_reencode(b):
     from pybufrkit.renderer import FlatJsonRenderer
     from pybufrkit.utils import JSON_DUMPS_KWARGS
     try:
-        msg = Decoder().process(b, wire_template_data=False)
+        msg = objs.decoder().process(b, wire_template_data=False)
         s = json.dumps(FlatJsonRenderer().render(msg), **JSON_DUMPS_KWARGS)
-        out = Encoder().process(s, wire_template_data=False)
+        out = objs.encoder().process(s, wire_template_data=False)
     except FileNotFoundError as e:
         # the Encoder looks tables up without the Decoder's fall-back to the default version (normalize=0)
         return 'no-tables', None
